@@ -17,6 +17,7 @@ Definition to_pact (a : lact) : pact :=
   | LRelease ch => PRelease ch
   | LAddPeer p => PAddPeer p
   | LDropPeer p => PDropPeer p
+  | LReplace p => PReplace p
   | LWake => PWake
   | LPass => PPass
   end.
@@ -24,7 +25,7 @@ Definition to_pact (a : lact) : pact :=
 Lemma sim_step s a : embed (lstep s a) = Fine.lrun (embed s) (expand1 (to_pact a)).
 Proof.
   destruct s as [c0 pb inc st al w wk ph]. unfold Fine.lrun.
-  destruct ph; destruct a as [ch|ch|p|p| |];
+  destruct ph; destruct a as [ch|ch|p|p|p| |];
     cbn [to_pact expand1 fold_left lstep Fine.lstep embed embed_phase pass_init pass_sweep
          l_ch l_pubbed l_inc l_started l_all l_wire l_wake l_phase
          Fine.l_ch Fine.l_pubbed Fine.l_inc Fine.l_started Fine.l_all Fine.l_wire Fine.l_wake Fine.l_phase Fine.l_ghost];
